@@ -56,6 +56,10 @@ class Module:
     self.src = src
     self.tree = ast.parse(src, filename=path)
     self.is_test = path.endswith("_test.py")
+    self.alpha = []            # units whose locals were renamed back to the pinned names (alpha-equivalent to the pinned tree)
+    if not self.is_test:
+      from . import alpha as _alpha
+      self.alpha = _alpha.normalise(self.tree, self.short)
     self.imports = {}          # local alias -> dotted target (module or module.attr)
     self.funcs = {}
     self.classes = {}
@@ -275,7 +279,8 @@ class Repo:
             res += 1
     return {"modules": len(self.modules), "test_modules_excluded": len(self.tests),
             "examples": len(self.examples), "functions": nf, "call_sites": calls,
-            "call_sites_resolved_by_alias": res}
+            "call_sites_resolved_by_alias": res,
+            "units_alpha_normalised": sorted("%s:%s" % (m.short, q) for m in self.modules.values() for q, _ in m.alpha)}
 
 
 def norm(node):
